@@ -212,7 +212,7 @@ class RemoteServerProcess(ProcessWorker):
             return
         self._addr = self._comms.parent_end.recv()
         if not isinstance(self._addr[0], str):
-            self._result = self._addr
+            self._result, self._user_state = self._addr
             self._addr = None
             self._dead = True
 
